@@ -180,6 +180,12 @@ func gen(g *vh.Gen) {
 			g.Emit("scan", st, fmt.Sprint(p), b, in, c)
 		}
 	}
+	// thorough tier: the run loop really scans — one minute after Start — and then exits on cancel
+	if g.Tier == "thorough" {
+		for _, st := range []string{"mem", "file"} {
+			g.Emit("start", st, "3600", "63000", vh.HS("a")+":5,90000,40,3800;"+vh.HS("b")+":7000;"+vh.HS("c")+":9")
+		}
+	}
 	// the run loop: disabled for period <= 0; exits on cancel; Join returns
 	for i := 0; i < g.N(6, 60); i++ {
 		b, _, _ := boxes(g, 0, 1+g.Intn(3))
